@@ -130,8 +130,7 @@ TypeOf(P, G, e) ==
                      ELSE IF \E j \in 1..np : ~Compat(l.t.a[j], ts[j]) THEN Err("argtype") ELSE l.t.a[np + 1])
           ELSE IF FindT(P.externs, e.s) # 0 THEN
                LET x == P.externs[FindT(P.externs, e.s)] IN
-               IF FindT(G, "@unsafe") = 0 THEN Err("unsafe")           \* 6.4: external calls only in an unsafe context
-               ELSE IF Len(ts) # Len(x.ptyS) THEN Err("arity")
+               IF Len(ts) # Len(x.ptyS) THEN Err("arity")
                ELSE IF \E j \in 1..Len(ts) : ~Compat(x.ptyS[j], ts[j]) THEN Err("argtype") ELSE x.retS
           ELSE IF e.s \in BuiltinsT THEN BuiltinType(e.s, ts)
           ELSE IF e.s \in LibBuiltinsT THEN LibBuiltinType(e.s, ts)
@@ -162,7 +161,11 @@ Check(P, G, s, rt, inloop) ==
                            l == LookupT(P, G, s.s) IN
                        CR(G, ErrOf(t) \cup (IF ~l.ok THEN {"scope"} ELSE IF l.t.k = "fn" THEN {"immutable"} ELSE IF l.m = 0 THEN {"immutable"} ELSE {})
                                      \cup (IF l.ok /\ ~IsErr(t) /\ l.t.k # "fn" /\ ~Compat(l.t, t) THEN {"assign"} ELSE {}), FALSE)
-     [] s.k = "expr" -> CR(G, ErrOf(TypeOf(P, G, s.a[1])), FALSE)
+     \* rule `unsafe`, as implemented (typechecker.c "requires unsafe block or unsafe module"): a call of an external function that
+     \* stands as a statement of its own must be inside an unsafe block.  SPECIFICATION 6.4 uses external calls inside
+     \* expressions without any unsafe block and EXTERN_FFI.md only plans explicit unsafe blocks, so nothing more is demanded.
+     [] s.k = "expr" -> CR(G, ErrOf(TypeOf(P, G, s.a[1])) \cup
+                             (IF s.a[1].k = "call" /\ FindT(P.externs, s.a[1].s) # 0 /\ ~LookupT(P, G, s.a[1].s).ok /\ FindT(G, "@unsafe") = 0 THEN {"unsafe"} ELSE {}), FALSE)
      [] s.k = "ret" -> IF Len(s.a) = 0 THEN CR(G, IF rt = TVoid THEN {} ELSE {"rettype"}, TRUE)
                        ELSE LET t == TypeOf(P, G, s.a[1]) IN CR(G, ErrOf(t) \cup (IF ~IsErr(t) /\ ~Compat(rt, t) THEN {"rettype"} ELSE {}), TRUE)
      [] s.k \in {"break", "continue"} -> CR(G, IF inloop THEN {} ELSE {"loopctl"}, FALSE)
